@@ -168,8 +168,30 @@ class SymArray:
     def all(self):
         return R.call_value(all, [self.e], {})
 
-    def sum(self):
+    def sum(self, axis=None):
         return np_sum(self)
+
+    def min(self, axis=None):
+        return np_min(self)
+
+    def max(self, axis=None):
+        return np_max(self)
+
+    def mean(self, axis=None):
+        with _numpy_arith():
+            return R.binop(ast.Div(), np_sum(self), len(self.e))
+
+    def argmax(self, axis=None):
+        return _argbest(self.e, ast.Gt())
+
+    def argmin(self, axis=None):
+        return _argbest(self.e, ast.Lt())
+
+    def __getattr__(self, name):
+        # numpy API that is not modelled: not encodable (never a crash of the harness)
+        if name.startswith("_"):
+            raise AttributeError(name)
+        raise Unsupported(f"numpy array attribute .{name} is not modelled")
 
     # -- indexing ------------------------------------------------------------------------
     def __getitem__(self, idx):
@@ -235,13 +257,69 @@ class SymArray:
         return len(self.e)
 
 
+def _argbest(elems, op):
+    best, idx = elems[0], 0
+    for k in range(1, len(elems)):
+        c = R.compare(op, elems[k], best)
+        ct = truth(c) if is_sym(c) else c
+        best = merge(ct, elems[k], best)
+        idx = merge(ct, k, idx)
+    return idx
+
+
 class SymMat:
-    """2-d boolean matrix (rows of scalars) from broadcasted comparison"""
+    """2-d matrix (rows of scalars), e.g. from a broadcasted comparison"""
     _symarray = True
     __hash__ = None
 
     def __init__(self, rows):
         self.rows = rows
+
+    @property
+    def shape(self):
+        return (len(self.rows), len(self.rows[0]) if self.rows else 0)
+
+    @property
+    def T(self):
+        return SymMat([list(c) for c in zip(*self.rows)])
+
+    def __getitem__(self, idx):
+        if isinstance(idx, tuple) and len(idx) == 2 and all(isinstance(i, (slice, int)) for i in idx):
+            r, c = idx
+            rows = self.rows[r] if isinstance(r, slice) else [self.rows[r]]
+            out = [row[c] for row in rows]
+            if isinstance(r, int):
+                return SymArray(out[0]) if isinstance(c, slice) else out[0]
+            if isinstance(c, int):
+                return SymArray(out)
+            return SymMat([list(x) for x in out])
+        if isinstance(idx, (int, slice)):
+            return SymArray(self.rows[idx]) if isinstance(idx, int) else SymMat(self.rows[idx])
+        raise Unsupported("matrix indexing")
+
+    def _reduce(self, f, axis):
+        if axis == 1:
+            return SymArray([f(SymArray(r)) for r in self.rows])
+        if axis == 0:
+            return SymArray([f(SymArray(list(c))) for c in zip(*self.rows)])
+        return f(SymArray([x for r in self.rows for x in r]))
+
+    def any(self, axis=None):
+        return self._reduce(lambda a: a.any(), axis)
+
+    def all(self, axis=None):
+        return self._reduce(lambda a: a.all(), axis)
+
+    def sum(self, axis=None):
+        return self._reduce(lambda a: a.sum(), axis)
+
+    def argmax(self, axis=None):
+        return m_argmax(self, axis)
+
+    def __getattr__(self, name):
+        if name.startswith("_"):
+            raise AttributeError(name)
+        raise Unsupported(f"numpy matrix attribute .{name} is not modelled")
 
     def _copy(self):
         return SymMat([list(r) for r in self.rows])
@@ -506,19 +584,11 @@ def m_pad(a, pad_width, mode="constant", constant_values=0):
 
 
 def m_argmax(m, axis=None):
+    if isinstance(m, SymArray):
+        return m.argmax()
     if not isinstance(m, SymMat) or axis != 1:
         raise Unsupported("argmax")
-    out = []
-    for r in m.rows:
-        res = len(r) - 1
-        # first index of the maximum of a boolean row: first True, or 0 if none
-        allfalse = z3.And([z3.Not(truth(c)) if is_sym(c) else z3.BoolVal(not c) for c in r])
-        res = 0
-        for k in range(len(r) - 1, -1, -1):
-            c = r[k]
-            res = merge(truth(c), k, res)
-        out.append(res)
-    return SymArray(out, int)
+    return SymArray([_argbest([R.cast_up_bool(x) if is_sym(x) else int(x) for x in r], ast.Gt()) for r in m.rows], int)
 
 
 class AggTable:
